@@ -53,6 +53,20 @@ Full == (Mode = "arg" /\ Len(vSeq) = 4) \/ (Mode = "unknown" /\ Len(vSeq) = 3)
 Text == IF Mode = "arg" THEN Eager(TextArg) ELSE Eager(TextUnknown)
 EmitVector == Full => PrintT(ToJson([i |-> Text, e |-> ParseText(Text), tag |-> "C18"]))
 
+\* LENGTH and WIDTH of the offending word: words of 30..300 characters, of one-, two-, three- and four-byte
+\* characters at every alignment, as unknown word and as bad argument (a message that shortens, cuts or re-reads the
+\* word must still quote the word)
+Rep(c, n) == [i \in 1..n |-> c]
+WordLens == {30, 40, 41, 63, 64, 65, 79, 80, 81, 100, 127, 128, 129, 200, 255, 256, 257, 300}
+WideCh == {120, 233, 26085, 128512}
+LongWords == {Rep(120, n) : n \in WordLens}
+             \cup UNION {{Rep(120, pad) \o Rep(ch, n) : pad \in 0..3, n \in {14, 22, 27, 40, 70}} : ch \in WideCh \ {120}}
+EmitLong ==
+  (Mode = "arg" /\ vSeq = <<>>) =>
+    \A w \in LongWords :
+      \A txt \in {w, Cp("-true ") \o w, Cp("-uid ") \o w, Cp("-name a -o -size ") \o w \o Cp(" -print"), Cp("-perm ") \o w, Cp("( -type ") \o w \o Cp(" )"),
+                   Cp("-threads ") \o w, Cp("-mtime ") \o w, Cp("/") \o w} :
+        PrintT(ToJson([i |-> txt, e |-> ParseText(txt), tag |-> "C18"]))
 \* coverage sanity: every emitted case of mode "arg" with a bad word IS a rejection whose facts are
 \* attributable (otherwise the check would be vacuous for that keyword)
 InvAttributable ==
